@@ -80,6 +80,25 @@ def r06b(ctx, P):
     ctx.ob(rid, "%s:positive-control" % rid, pc, "control: IndexReader::open reaches Storage::read_to_end (the query can see the pattern)"
            if pc else "positive control failed: IndexReader::open should reach Storage::read_to_end",
            "%s:%s" % (ropen.file, ropen.line) if ropen else None)
+    # a reader works on its own copy of the manifest: searching never consults the shared, mutable one
+    lock_sites = []
+    for q in [search.path] + sorted(x for x in r if x in P.fns):
+        g = P.fns[q]
+        if g.crate != "searchlite_core" or is_test_or_bench(g):
+            continue
+        for (ls, _g, c) in lock_acquisitions(g, field="manifest") + lock_acquisitions(g, field="writer_lock"):
+            lock_sites.append(ls)
+    ctx.ob(rid, "%s:IndexReader::search:no-shared-manifest-lock" % rid, not lock_sites,
+           "nothing reachable from IndexReader::search locks the shared manifest or the writer lock: a search answers from the "
+           "manifest copy and segment readers captured at open" if not lock_sites else
+           "IndexReader::search reaches a lock on shared index state at %s: a search can observe a later commit than the one it was "
+           "opened on" % lock_sites[0].loc(), "%s:%s" % (search.file, search.line))
+    radt = P.adts.get(N.READER)
+    if ctx.anchor(rid, radt, "IndexReader struct"):
+        shared = [f[0] for f in radt["variants"][0]["fields"] if "InnerIndex" in f[1] or "RwLock" in f[1] or "index::Index" in f[1]]
+        ctx.ob(rid, "%s:IndexReader:owns-its-snapshot" % rid, not shared,
+               "IndexReader holds Manifest / SegmentReader values, no handle to the shared index state" if not shared else
+               "IndexReader keeps a handle to shared state in field(s) %s" % shared, "%s:%s" % (radt["file"], radt["line"]))
     adt = P.adts.get(N.SEGR)
     if ctx.anchor(rid, adt, "SegmentReader struct"):
         bad = [f[0] for f in adt["variants"][0]["fields"] if "storage::Storage" in f[1] and "StorageFile" not in f[1]]
